@@ -752,7 +752,7 @@ def main(tier, replay=None):
     misc_bad += oracle_dup(run, beams, 150 if thorough else 15)
     # every class (switched-off corners included): the property on whatever split() returns + which classes slice, vs the model
     cls_bad, cls_terms, cls_seen = oracle_classes(run, beams, 12 if thorough else 2)
-    misc_bad += cls_bad
+    misc_bad = cls_bad + misc_bad            # an input on which the pieces ACT differently comes first
     failing_cls = common.run_shards(PID, "classes", PREAMBLE_CLS, cls_terms, "c16_class_check") if cls_terms else []
     run.cov["traces_validated_against_impl"] += len(cls_terms)
     regressed = replay_known(run, beams)
@@ -772,7 +772,15 @@ def main(tier, replay=None):
         run.violation({"kind": "split_case", "case": c, "failures": bad, "relation": "pieces add up to the length, none longer than the resolution, "
                        "same dtype/attributes, tracking the pieces in turn equals tracking the whole, corrector angles add up"})
     elif misc_bad:
-        run.violation(dict(misc_bad[0], relation="split of unsplittable / segment / vectorised / float32 elements"))
+        # "a class the model calls unsplittable no longer returns [self]" alone is a disagreement with the model, not yet an input on
+        # which the property fails (the pieces may well act like the element): reported with an input only if one was found
+        acting = [m for m in misc_bad if m.get("kind") != "unsplittable"]
+        if acting:
+            run.violation(dict(acting[0], relation="split of unsplittable / segment / vectorised / float32 elements: lengths add up, "
+                               "tracking the pieces in turn equals tracking the element"))
+        else:
+            run.violation(dict(misc_bad[0], broken="Lattice/Split.v: this class is modelled as returning [self]; split() now returns something else, "
+                               "and no input was found on which the pieces act differently from the element"), no_input=True)
     elif failing:
         c = cases[failing[0]]
         run.violation({"kind": "correspondence", "broken": "rational model Lattice/Split.v (c16_check) disagrees with split() on this case",
